@@ -325,3 +325,7 @@ def run(ctx):
     ctx.notes["rule"] = ("table: every field at {0, 1, 2^(w-1), max-1, max} of its width, info lengths {0, 1, limit-1, limit, limit+1} for 1024/2048-bit keys, layout "
                          "bytes computed by TLC; nine kinds of undecryptable / malformed blobs; random full-width fields; thorough: every info length; distinct = (metadata, key size)")
     ctx.exhaustive = True
+    # history freedom of the functions of their input behind this property (Pure.tla)
+    from vt.checks import xpure
+
+    xpure.pure_part(ctx, xpure.entries_for("C06"))
